@@ -27,7 +27,7 @@ BOUND = {
     "thorough": "L(5,3) x every question position x 11 types x 22 tokens; L(5,3) x ordered trigger pairs x 3 target types x calc/no-calc x 2 trigger types",
 }
 # as-built additions to the bound (kept next to BOUND so that the evidence reports them)
-BOUND = {k: v + "; plus: " + "a namesake of the question in another group/repeat (before/after) with a default of the other kind, 6 token pairs; triggered calculations spelled yes/false/TRUE/true(); 4 function/reference-then-minus tokens; one name deviation: the question's name extends another node's name (<name>_count, <name>x)" for k, v in BOUND.items()}
+BOUND = {k: v + "; plus: " + "selects with a default / trigger inside a table-list group (helper nodes get nothing); select defaults naming a choice that looks like arithmetic (65-plus); a namesake of the question in another group/repeat (before/after) with a default of the other kind, 6 token pairs; triggered calculations spelled yes/false/TRUE/true(); 4 function/reference-then-minus tokens; one name deviation: the question's name extends another node's name (<name>_count, <name>x)" for k, v in BOUND.items()}
 NAMES = ["a", "b", "c", "d", "e", "f"]
 TYPES = ["text", "integer", "decimal", "date", "time", "dateTime", "select_one c", "geopoint", "image", "calculate", "note"]
 # token -> classification: 's' static, 'd' dynamic, '?' ambiguous
@@ -50,7 +50,25 @@ def _forest(fi):
     raise IndexError(fi)
 
 
+def gen_tablelist():
+    """selects inside a table-list group: the generated helper nodes hold no default and are the target of no action"""
+    for pos in (0, 1):
+        for dflt in (None, "abc", "${t0}", "y"):
+            for trig in (False, True):
+                for ctx in ("top", "repeat"):
+                    for sel in ("select_one c", "select_multiple c"):
+                        if dflt is None and not trig:
+                            continue
+                        yield {"k": "tablelist", "pos": pos, "default": dflt, "trig": trig, "ctx": ctx, "sel": sel}
+    # a select whose default is a choice name that looks like arithmetic
+    for name in ("65-plus", "1-a", "a-b", "18-64", "x+y"):
+        for ty in ("select_one d", "select_multiple d"):
+            for ctx in ("top", "repeat"):
+                yield {"k": "choicedefault", "name": name, "type": ty, "ctx": ctx}
+
+
 def blocks(tier):
+    yield ("tablelist",)
     N = 4 if tier == "quick" else 5
     n = sum(1 for _ in forests_upto(N, 3))
     for fi in range(n):
@@ -59,6 +77,9 @@ def blocks(tier):
 
 
 def expand(block, tier):
+    if block[0] == "tablelist":
+        yield from gen_tablelist()
+        return
     forest = _forest(block[1])
     fj = forest_to_json(forest)
     nodes = flatten(forest, NAMES)
@@ -179,7 +200,60 @@ def build(case):
 DATE_LIKE = {"date", "dateTime", "geopoint"}
 
 
+def check_special(case):
+    rows = [{"type": "text", "name": "t0", "label": "T0"}]
+    if case["k"] == "tablelist":
+        feat = {"type": case["sel"], "name": "s1", "label": "S1"}
+        if case["default"] is not None:
+            feat["default"] = case["default"]
+        if case["trig"]:
+            feat.update(trigger="${t0}", calculation="'y'")
+        other = {"type": case["sel"], "name": "s2", "label": "S2"}
+        body = [{"type": "begin group", "name": "tl", "label": "TL", "appearance": "table-list"}, *([feat, other] if case["pos"] == 0 else [other, feat]), {"type": "end group"}]
+        choices = [dict(c) for c in CHOICES]
+        own = "s1"
+    else:
+        body = [{"type": case["type"], "name": "s1", "label": "S1", "default": case["name"]}]
+        choices = [{"list_name": "d", "name": case["name"], "label": "N"}, {"list_name": "d", "name": "other1", "label": "O"}]
+        own = "s1"
+    if case["ctx"] == "repeat":
+        body = [{"type": "begin repeat", "name": "r", "label": "R"}, *body, {"type": "end repeat"}]
+    out = run_convert({"survey": rows + body, "choices": choices})
+    ntr = len(rows) + len(body)
+    if out.kind != "ok":
+        return {"outcome": out.kind, "nt": False, "viol": [], "tr": ntr, "unexp": out.kind == "reject", "why": out.msg}
+    obs = O.Obs(out.xform)
+    viol = []
+    base = "/data/r" if case["ctx"] == "repeat" else "/data"
+    px = f"{base}/tl/{own}" if case["k"] == "tablelist" else f"{base}/{own}"
+    acts = all_setvalues(obs)
+    mine = [el for el, par, tag in acts if el.get("ref") == px]
+    stray = [el.get("ref") for el, par, tag in acts if el.get("ref") != px]
+    if stray:
+        viol.append((f"stray-action:{case['k']}", f"{stray} (own node {px})"))
+    copies = [obs.paths.get(px)] + list(obs.template_paths.get(px, []))
+    texts = [(c.text or "") for c in copies if c is not None]
+    if case["k"] == "tablelist":
+        dflt, trig = case["default"], case["trig"]
+        want_lit = dflt if dflt in ("abc", "y") else ""
+        want_acts = (1 if dflt == "${t0}" else 0) + (1 if trig else 0)
+        if any(t != want_lit for t in texts) or len(mine) != want_acts:
+            viol.append((f"tablelist-default-or-trigger-not-exactly-once:{'default' if dflt else ''}{'+trigger' if trig else ''}", f"texts={texts} actions={len(mine)} want literal {want_lit!r} x{len(texts)} and {want_acts} actions"))
+        # no other node of the form holds the literal
+        for p_, el in obs.paths.items():
+            if p_ != px and dflt in ("abc", "y") and (el.text or "").strip() == dflt:
+                viol.append(("tablelist-default-on-another-node", p_))
+    else:
+        lit = all(t == case["name"] for t in texts) and not mine
+        dyn = all(t == "" for t in texts) and len(mine) == 1
+        if lit == dyn:
+            viol.append((f"default-not-exactly-once:select", f"default={case['name']!r} texts={texts} actions={len(mine)}"))
+    return {"outcome": "static" if not mine else "dynamic-model", "nt": not viol, "viol": viol, "tr": ntr}
+
+
 def check_one(case):
+    if case["k"] in ("tablelist", "choicedefault"):
+        return check_special(case)
     wb, nodes = build(case)
     out = run_convert(wb)
     ntr = len(wb["survey"])
